@@ -254,3 +254,30 @@ def bech32_zero_state(hrp: str, version: int, nbytes: int, fill: bytes, target: 
         prog = bytes(B.convertbits(d, 5, 8, pad=False) or [])
         if len(prog) == nbytes:
             yield prog
+
+
+def limb_scalars(bits=256):
+    """scalars whose base-2^w digit string (w = 8, 16, 26, 32, 52, 64) has zero digits in the middle, alternating zero digits, a
+    lone top digit, all-ones digits next to zero digits: what a limb-wise / windowed scalar walk mishandles when it skips or
+    drops zero limbs"""
+    out = []
+    for w in (8, 16, 26, 32, 52, 64):
+        nl = -(-bits // w)
+        full = (1 << w) - 1
+        pats = [
+            [1] + [0] * (nl - 2) + [1],                                  # top and bottom digit only
+            [full] + [0] * (nl - 2) + [full],
+            [(i + 1) % 2 * 3 for i in range(nl)],                        # alternating zero digits
+            [i % 2 * full for i in range(nl)],
+            [5] + [0] * (nl - 1),                                        # lone top digit
+            [7, 0] + [9] * (nl - 2), [7] * (nl - 2) + [0, 9], [7] * (nl // 2) + [0] + [9] * (nl - nl // 2 - 1),   # one interior zero digit
+            [full] * (nl // 2) + [0] * (nl - nl // 2),
+        ]
+        for p in pats:
+            k = 0
+            for d in p:
+                k = (k << w) | d
+            k &= (1 << bits) - 1
+            if k and k not in out:
+                out.append(k)
+    return out
